@@ -227,6 +227,33 @@ func init() { generators["hist"] = genHist }
 
 // genHist draws a random history of 6..12 calls over the catalogue (two buffers). Unmarshal is only
 // offered from a buffer that holds exactly one encoding of the item (as in the specification).
+// encLen is the length of the encoding of value k of catalogue item i (the generator needs to know which buffers are
+// empty, i.e. which hold exactly one value's encoding after the next marshal).
+var encLenCache = map[[2]int]int{}
+
+func encLen(cat []catItem, i, k int) int {
+	key := [2]int{i, k}
+	if n, ok := encLenCache[key]; ok {
+		return n
+	}
+	it := cat[i-1]
+	n := 1
+	guard(func() {
+		c, known := cfgs[it.Cfg]
+		if !known {
+			c = cfgs["default"]
+		}
+		gt := abs.GoType(it.T)
+		v := reflect.New(gt)
+		abs.Build(it.T, decodeAny(it.Vals[k-1]), v.Elem())
+		if data, err := newInstance(c).Marshal(nil, v.Interface()); err == nil {
+			n = len(data)
+		}
+	})
+	encLenCache[key] = n
+	return n
+}
+
 func genHist(r *rand.Rand, enc *json.Encoder, cfg Cfg, id int, depth int) {
 	cat := loadCatalogue()
 	bufsN := []string{"b1", "b2"}
@@ -258,10 +285,7 @@ func genHist(r *rand.Rand, enc *json.Encoder, cfg Cfg, id int, depth int) {
 			} else {
 				holds[b] = hold{}
 			}
-			length[b] += 1 // unknown exact growth: "non-empty unless the value encodes to nothing" is resolved below
-			if k == 1 {    // by construction vals[1] of every item encodes to nothing
-				length[b]--
-			}
+			length[b] += encLen(cat, i, k)
 		case 4, 5:
 			if length[b] == 0 {
 				continue
@@ -270,7 +294,7 @@ func genHist(r *rand.Rand, enc *json.Encoder, cfg Cfg, id int, depth int) {
 			k := 1 + r.Intn(len(cat[i-1].Vals))
 			steps = append(steps, sysStep{Act: "reuse", B: b, Pre: []int{}, I: i, K: k, Conv: "ptr"})
 			holds[b] = hold{i, k}
-			length[b] = k - 1
+			length[b] = encLen(cat, i, k)
 		case 6, 7:
 			h := holds[b]
 			if h.i == 0 {
